@@ -65,12 +65,13 @@ pub fn window_case(u: &mut Unstructured) -> c18::Case {
     let n = u.int_in_range(0..=40usize).unwrap_or(0);
     let mut ops = vec![];
     for _ in 0..n {
-        ops.push(match u.int_in_range(0..=6).unwrap_or(0) {
+        ops.push(match u.int_in_range(0..=7).unwrap_or(0) {
             0 | 1 => c18::Op::Fill,
             2 => c18::Op::Remove(u.int_in_range(0..=(size.min(8) + 1)).unwrap_or(0)),
             3 => c18::Op::Remove(u.arbitrary().unwrap_or(0)),
             4 => c18::Op::Add(u.int_in_range(0..=9).unwrap_or(0)),
             5 => c18::Op::Empty,
+            7 => c18::Op::AddSized(u.int_in_range(0..=70000).unwrap_or(0)),
             _ => c18::Op::AddMany(u.int_in_range(0..=2000).unwrap_or(0)),
         });
     }
